@@ -5,8 +5,8 @@
 (* the one the specification computes from the history.                    *)
 EXTENDS Cache, TraceBase
 
-VARIABLE l
-tvars == <<vars, l>>
+VARIABLES l, pressure     \* pressure: process-shared cache driven with values comparable to the segment size
+tvars == <<vars, l, pressure>>
 
 Ev == TraceLog[l]
 Is(name) == l <= NLines /\ Ev.e = name /\ l' = l + 1
@@ -26,11 +26,45 @@ TReset ==
     /\ last' = [k \in Names |-> NoEntry]
     /\ dead' = [k \in Names |-> FALSE]
     /\ present' = {} /\ order' = <<>> /\ res' = [NoRes EXCEPT !.op = "reset"] /\ nv' = 0
+    /\ pressure' = FALSE
+
+TPressure == Is("Pressure") /\ pressure' = TRUE /\ UNCHANGED vars
+
+(* Shared-memory deviations, named (DESIGN.md 3/C08): while memory is short a store keeps evicting beyond what  *)
+(* the limit requires - each further victim still chosen by the rule (an expired entry first, else the least    *)
+(* recently used) -, a value that cannot be allocated is dropped (the key's old entry is gone), and an          *)
+(* allocation failure inside the critical section empties the cache.                                            *)
+RECURSIVE EvictMore(_, _)
+EvictMore(P, O) ==
+    (IF limit = 0 \/ Cardinality(P) < limit THEN { <<P, O>> } ELSE {})
+    \cup (IF P = {} THEN {}
+          ELSE IF ExpiredIn(P) # {}
+               THEN UNION { EvictMore(P \ {k}, Without(O, k)) : k \in ExpiredIn(P) }
+               ELSE EvictMore(P \ {O[Len(O)]}, Without(O, O[Len(O)])))
+
+StoreUnderPressure(k, v, ts, dl) ==
+    LET P0 == present \ {k}
+        O0 == Without(order, k)
+        newlast == [last EXCEPT ![k] = [has |-> TRUE, v |-> v, ts |-> ts \cup {k}, dl |-> dl]]
+    IN /\ last' = newlast
+       /\ res' = [NoRes EXCEPT !.op = "store", !.k = k]
+       /\ UNCHANGED <<now, limit>>
+       /\ \/ \E po \in EvictMore(P0, O0) :                       \* stored, possibly after extra evictions
+                /\ present' = po[1] \cup {k} /\ order' = <<k>> \o po[2]
+                /\ dead' = [j \in Names |-> IF j = k THEN FALSE ELSE IF j \in P0 \ po[1] THEN TRUE ELSE dead[j]]
+          \/ /\ present' = P0 /\ order' = O0                       \* StoreDropped
+             /\ dead' = [dead EXCEPT ![k] = TRUE]
+          \/ \E po \in EvictMore(P0, O0) :                       \* evictions first, then the value still did not fit
+                /\ present' = po[1] /\ order' = po[2]
+                /\ dead' = [j \in Names |-> IF j = k \/ j \in P0 \ po[1] THEN TRUE ELSE dead[j]]
+          \/ /\ present' = {} /\ order' = <<>>                     \* StoreClearedAll
+             /\ dead' = [j \in Names |-> TRUE]
 
 TStore ==
     /\ Is("Store")
-    /\ Store(Ev.k, Ev.v, SeqToSet(Ev.ts), Ev.dl)
-    /\ nv' = nv
+    /\ IF pressure THEN StoreUnderPressure(Ev.k, Ev.v, SeqToSet(Ev.ts), Ev.dl)
+                   ELSE Store(Ev.k, Ev.v, SeqToSet(Ev.ts), Ev.dl)
+    /\ nv' = nv /\ pressure' = pressure
     /\ StatsOK
 
 TFetch ==
@@ -41,14 +75,14 @@ TFetch ==
                  /\ res'.ts = SeqToSet(Ev.ts)
                  /\ res'.dl = Ev.dl
                  /\ ~Ev.bad
-    /\ StatsOK
+    /\ StatsOK /\ pressure' = pressure
 
-TRise   == Is("Rise")   /\ Rise(Ev.t)   /\ StatsOK
-TRemove == Is("Remove") /\ Remove(Ev.k) /\ StatsOK
-TClear  == Is("Clear")  /\ Clear        /\ StatsOK
-TTick   == Is("Tick")   /\ Tick(Ev.d) /\ nv' = nv /\ StatsOK
+TRise   == Is("Rise")   /\ Rise(Ev.t)   /\ StatsOK /\ pressure' = pressure
+TRemove == Is("Remove") /\ Remove(Ev.k) /\ StatsOK /\ pressure' = pressure
+TClear  == Is("Clear")  /\ Clear        /\ StatsOK /\ pressure' = pressure
+TTick   == Is("Tick")   /\ Tick(Ev.d) /\ nv' = nv /\ StatsOK /\ pressure' = pressure
 
-TraceInit == Init /\ l = 1
-TraceNext == TReset \/ TStore \/ TFetch \/ TRise \/ TRemove \/ TClear \/ TTick
+TraceInit == Init /\ l = 1 /\ pressure = FALSE
+TraceNext == TReset \/ TPressure \/ TStore \/ TFetch \/ TRise \/ TRemove \/ TClear \/ TTick
 TraceSpec == TraceInit /\ [][TraceNext]_tvars
 =============================================================================
